@@ -1,0 +1,312 @@
+//! Verification hooks (cargo feature `verif-hooks`, off by default).
+//!
+//! Macro-generated caches live in function-local statics that nothing outside the
+//! function can reach. With the feature enabled the macros additionally register an
+//! *inspector* per cache name, through which an external verification harness can
+//! project the complete cache state (entries, hit counters, ages, queue), age the
+//! entries by whole seconds (virtual time) and empty the cache between replayed
+//! histories. Nothing here is used by the library itself.
+
+use crate::CacheEntry;
+use dashmap::DashMap;
+use once_cell::sync::Lazy;
+use parking_lot::{Mutex, RwLock};
+use std::cell::RefCell;
+use std::collections::{HashMap, VecDeque};
+use std::fmt::Debug;
+use std::rc::Rc;
+use std::sync::Arc;
+use std::thread::LocalKey;
+use std::time::{Duration, SystemTime, UNIX_EPOCH};
+
+/// One stored entry as seen by the harness.
+#[derive(Debug, Clone)]
+pub struct EntrySnap {
+    pub key: String,
+    /// `Debug` rendering of the stored value.
+    pub value: String,
+    pub frequency: u64,
+    /// Age in milliseconds (async caches: whole seconds * 1000).
+    pub age_ms: u64,
+    /// `MemoryEstimator` result, when the cache is memory-limited.
+    pub est: Option<usize>,
+}
+
+/// Complete projection of one cache.
+#[derive(Debug, Clone, Default)]
+pub struct Snapshot {
+    pub entries: Vec<EntrySnap>,
+    pub order: Vec<String>,
+}
+
+pub trait Inspector {
+    fn snapshot(&self) -> Snapshot;
+    /// Make every entry `secs` seconds older.
+    fn shift_age(&self, secs: u64);
+    /// Remove every entry and empty the queue.
+    fn reset(&self);
+    /// Addresses of the store lock and the queue lock (0 when not applicable).
+    fn lock_addrs(&self) -> (usize, usize) {
+        (0, 0)
+    }
+}
+
+type Est<R> = Option<fn(&R) -> usize>;
+
+fn unix_now() -> u64 {
+    SystemTime::now()
+        .duration_since(UNIX_EPOCH)
+        .unwrap()
+        .as_secs()
+}
+
+// ---------------------------------------------------------------------------------------------
+// sync global caches
+// ---------------------------------------------------------------------------------------------
+
+struct GlobalInspector<R: 'static> {
+    map: &'static Lazy<RwLock<HashMap<String, CacheEntry<R>>>>,
+    order: &'static Lazy<Mutex<VecDeque<String>>>,
+    est: Est<R>,
+}
+
+impl<R: Debug + 'static> GlobalInspector<R> {
+    fn project(&self, m: &HashMap<String, CacheEntry<R>>, o: &VecDeque<String>) -> Snapshot {
+        let mut entries: Vec<EntrySnap> = m
+            .iter()
+            .map(|(k, e)| EntrySnap {
+                key: k.clone(),
+                value: format!("{:?}", e.value),
+                frequency: e.frequency,
+                age_ms: e.inserted_at.elapsed().as_millis() as u64,
+                est: self.est.map(|f| f(&e.value)),
+            })
+            .collect();
+        entries.sort_by(|a, b| a.key.cmp(&b.key));
+        Snapshot {
+            entries,
+            order: o.iter().cloned().collect(),
+        }
+    }
+}
+
+impl<R: Debug + 'static> Inspector for GlobalInspector<R> {
+    fn snapshot(&self) -> Snapshot {
+        // The harness calls this either at quiescence or while every managed thread is
+        // parked by its cooperative scheduler, so reading through the raw pointers when a
+        // parked thread holds a lock is free of data races.
+        let mg = self.map.try_read();
+        let og = self.order.try_lock();
+        let m: &HashMap<String, CacheEntry<R>> = match &mg {
+            Some(g) => &**g,
+            None => unsafe { &*self.map.data_ptr() },
+        };
+        let o: &VecDeque<String> = match &og {
+            Some(g) => &**g,
+            None => unsafe { &*self.order.data_ptr() },
+        };
+        self.project(m, o)
+    }
+
+    fn shift_age(&self, secs: u64) {
+        let mut m = self.map.write();
+        for e in m.values_mut() {
+            if let Some(t) = e.inserted_at.checked_sub(Duration::from_secs(secs)) {
+                e.inserted_at = t;
+            }
+        }
+    }
+
+    fn reset(&self) {
+        self.map.write().clear();
+        self.order.lock().clear();
+    }
+
+    fn lock_addrs(&self) -> (usize, usize) {
+        unsafe {
+            (
+                self.map.raw() as *const _ as *const u8 as usize,
+                self.order.raw() as *const _ as *const u8 as usize,
+            )
+        }
+    }
+}
+
+// ---------------------------------------------------------------------------------------------
+// async caches
+// ---------------------------------------------------------------------------------------------
+
+struct AsyncInspector<R: 'static> {
+    cache: &'static Lazy<DashMap<String, (R, u64, u64)>>,
+    order: &'static Lazy<Mutex<VecDeque<String>>>,
+    est: Est<R>,
+}
+
+impl<R: Debug + 'static> Inspector for AsyncInspector<R> {
+    fn snapshot(&self) -> Snapshot {
+        let now = unix_now();
+        let mut entries: Vec<EntrySnap> = self
+            .cache
+            .iter()
+            .map(|e| EntrySnap {
+                key: e.key().clone(),
+                value: format!("{:?}", e.value().0),
+                frequency: e.value().2,
+                age_ms: now.saturating_sub(e.value().1) * 1000,
+                est: self.est.map(|f| f(&e.value().0)),
+            })
+            .collect();
+        entries.sort_by(|a, b| a.key.cmp(&b.key));
+        let og = self.order.try_lock();
+        let o: &VecDeque<String> = match &og {
+            Some(g) => &**g,
+            None => unsafe { &*self.order.data_ptr() },
+        };
+        Snapshot {
+            entries,
+            order: o.iter().cloned().collect(),
+        }
+    }
+
+    fn shift_age(&self, secs: u64) {
+        for mut e in self.cache.iter_mut() {
+            e.value_mut().1 = e.value().1.saturating_sub(secs);
+        }
+    }
+
+    fn reset(&self) {
+        self.cache.clear();
+        self.order.lock().clear();
+    }
+
+    fn lock_addrs(&self) -> (usize, usize) {
+        unsafe { (0, self.order.raw() as *const _ as *const u8 as usize) }
+    }
+}
+
+// ---------------------------------------------------------------------------------------------
+// thread-local caches
+// ---------------------------------------------------------------------------------------------
+
+struct ThreadInspector<R: 'static> {
+    cache: &'static LocalKey<RefCell<HashMap<String, CacheEntry<R>>>>,
+    order: &'static LocalKey<RefCell<VecDeque<String>>>,
+    est: Est<R>,
+}
+
+impl<R: Debug + 'static> Inspector for ThreadInspector<R> {
+    fn snapshot(&self) -> Snapshot {
+        let mut entries: Vec<EntrySnap> = self.cache.with(|c| {
+            c.borrow()
+                .iter()
+                .map(|(k, e)| EntrySnap {
+                    key: k.clone(),
+                    value: format!("{:?}", e.value),
+                    frequency: e.frequency,
+                    age_ms: e.inserted_at.elapsed().as_millis() as u64,
+                    est: self.est.map(|f| f(&e.value)),
+                })
+                .collect()
+        });
+        entries.sort_by(|a, b| a.key.cmp(&b.key));
+        let order = self.order.with(|o| o.borrow().iter().cloned().collect());
+        Snapshot { entries, order }
+    }
+
+    fn shift_age(&self, secs: u64) {
+        self.cache.with(|c| {
+            for e in c.borrow_mut().values_mut() {
+                if let Some(t) = e.inserted_at.checked_sub(Duration::from_secs(secs)) {
+                    e.inserted_at = t;
+                }
+            }
+        });
+    }
+
+    fn reset(&self) {
+        self.cache.with(|c| c.borrow_mut().clear());
+        self.order.with(|o| o.borrow_mut().clear());
+    }
+}
+
+// ---------------------------------------------------------------------------------------------
+// registries
+// ---------------------------------------------------------------------------------------------
+
+struct Shared(Arc<dyn Inspector>);
+// Inspectors of global/async caches only hold `&'static` references to `Sync` statics.
+unsafe impl Send for Shared {}
+unsafe impl Sync for Shared {}
+
+static GLOBAL_INSPECTORS: Lazy<std::sync::Mutex<HashMap<String, Shared>>> =
+    Lazy::new(|| std::sync::Mutex::new(HashMap::new()));
+
+thread_local! {
+    static THREAD_INSPECTORS: RefCell<HashMap<String, Rc<dyn Inspector>>> =
+        RefCell::new(HashMap::new());
+}
+
+/// Called by `#[cache]` (global scope) expansions.
+pub fn register_global<R: Debug + 'static>(
+    name: &str,
+    map: &'static Lazy<RwLock<HashMap<String, CacheEntry<R>>>>,
+    order: &'static Lazy<Mutex<VecDeque<String>>>,
+    est: Est<R>,
+) {
+    GLOBAL_INSPECTORS.lock().unwrap().insert(
+        name.to_string(),
+        Shared(Arc::new(GlobalInspector { map, order, est })),
+    );
+}
+
+/// Called by `#[cache_async]` expansions.
+pub fn register_async<R: Debug + 'static>(
+    name: &str,
+    cache: &'static Lazy<DashMap<String, (R, u64, u64)>>,
+    order: &'static Lazy<Mutex<VecDeque<String>>>,
+    est: Est<R>,
+) {
+    GLOBAL_INSPECTORS.lock().unwrap().insert(
+        name.to_string(),
+        Shared(Arc::new(AsyncInspector { cache, order, est })),
+    );
+}
+
+/// Called by `#[cache(scope = "thread")]` expansions on every call (idempotent per thread).
+pub fn register_thread<R: Debug + 'static>(
+    name: &str,
+    cache: &'static LocalKey<RefCell<HashMap<String, CacheEntry<R>>>>,
+    order: &'static LocalKey<RefCell<VecDeque<String>>>,
+    est: Est<R>,
+) {
+    THREAD_INSPECTORS.with(|t| {
+        let mut t = t.borrow_mut();
+        if !t.contains_key(name) {
+            t.insert(
+                name.to_string(),
+                Rc::new(ThreadInspector { cache, order, est }),
+            );
+        }
+    });
+}
+
+/// Inspector of a global or async cache, by cache name.
+pub fn inspector(name: &str) -> Option<Arc<dyn Inspector>> {
+    GLOBAL_INSPECTORS
+        .lock()
+        .unwrap()
+        .get(name)
+        .map(|s| s.0.clone())
+}
+
+/// Inspector of the calling thread's thread-local cache, by cache name.
+pub fn thread_inspector(name: &str) -> Option<Rc<dyn Inspector>> {
+    THREAD_INSPECTORS.with(|t| t.borrow().get(name).cloned())
+}
+
+/// Names of all registered global/async inspectors.
+pub fn inspector_names() -> Vec<String> {
+    let mut v: Vec<String> = GLOBAL_INSPECTORS.lock().unwrap().keys().cloned().collect();
+    v.sort();
+    v
+}
